@@ -24,6 +24,7 @@ import (
 	"github.com/iDigitalFlame/xmt/c2"
 	"github.com/iDigitalFlame/xmt/com"
 	"github.com/iDigitalFlame/xmt/data"
+	"github.com/iDigitalFlame/xmt/device"
 )
 
 func init() {
@@ -61,6 +62,7 @@ func c04Bounds() map[string]c04Bound {
 	m["rp"] = c04Bound{4200, 1 << 20}     // zlib/gzip may expand 1032:1 (stdlib, assumption)
 	m["handle"] = c04Bound{4200, 1 << 21} // + reply path
 	m["recv"] = c04Bound{8, 1 << 20}
+	m["fragseq"] = c04Bound{16, 1 << 16}
 	m["resolve"] = c04Bound{256, 1 << 16}
 	m["procmulti"] = c04Bound{64, 1 << 20}
 	m["json"] = c04Bound{64, 1 << 21}
@@ -79,7 +81,7 @@ var c04Entry = map[string]string{
 	"r.systemio": "result.SystemIO", "r.script": "result.Script",
 	"s.bytes": "data.reader.Bytes", "s.strlist": "data.reader.ReadStringList",
 	"dns": "transform.DNS.Read", "b64": "transform.B64.Read", "cbk": "crypto.CBK.Read",
-	"wire": "com.Packet.Unmarshal", "rp": "c2.readPacket", "handle": "c2.handle", "recv": "c2.receive",
+	"wire": "com.Packet.Unmarshal", "rp": "c2.readPacket", "handle": "c2.handle", "recv": "c2.receive", "fragseq": "c2.receive(fragment sequence)",
 	"resolve": "c2.conn.resolve", "procmulti": "c2.conn.processMultiple", "json": "c2.Session.JSON",
 	"hang": "c2.readDeviceInfo", "hsw": "c2.handle", "e2e": "e2e", "e2eraw": "c2.Listener(e2e)",
 }
@@ -255,6 +257,18 @@ func c04Judge(c *Ctx, o *c04Op, bounds map[string]c04Bound) {
 	}
 	if o.model {
 		c.Op(o.line, ans)
+	}
+	if o.name == "fragseq" {
+		for _, t := range strings.Fields(ans) {
+			if strings.Contains(t, "=") {
+				continue
+			}
+			if !strings.HasPrefix(t, "err:") {
+				t = strings.SplitN(t, ":", 2)[0]
+			}
+			c.Count("fragseq:" + t)
+		}
+		return
 	}
 	cls := strings.SplitN(ans, " ", 3)
 	k := cls[0]
@@ -712,6 +726,88 @@ func runC04(c *Ctx) {
 		c.Eval(true, "info"+hx(b))
 	})
 	flush()
+	// 4b. the fragment dispatcher as a state machine: whole connection histories of hostile fragment
+	// packets into one Session (counts, positions, groups, IDs and jobs unrelated to each other; empty
+	// and non-empty bodies; the control IDs), compared with the Lean model packet by packet
+	c.Cases("fragseq", c.N(600, 12000), func(r *Rng, i int) {
+		var dev device.ID
+		dev[0], dev[3] = 5, 1
+		ngr := 1 + r.Intn(3)
+		type gk struct {
+			id   uint8
+			job  uint16
+			grp  uint16
+			ln   int
+			mode int
+		}
+		gs := make([]gk, ngr)
+		for k := range gs {
+			gs[k] = gk{id: uint8(0x20 + r.Intn(3)), job: uint16(2 + r.Intn(3)), grp: uint16(1 + r.Intn(3)), ln: []int{2, 2, 3, 3, 4, 5, 8}[r.Intn(7)], mode: r.Intn(6)}
+			if r.Chance(5) {
+				gs[k].grp = []uint16{0, 65535}[r.Intn(2)]
+			}
+		}
+		nf := 2 + r.Intn(10)
+		if i < 40 {
+			nf = 2 + i%5 // the short histories first: every group shape with 2..6 fragments
+		}
+		toks := make([]string, 0, nf)
+		total := 0
+		for k := 0; k < nf; k++ {
+			g := gs[r.Intn(ngr)]
+			if i < 40 {
+				g = gs[0]
+				g.mode = i / 5 % 6
+			}
+			n := &com.Packet{ID: g.id, Job: g.job, Device: dev}
+			ln, pos := g.ln, k%(g.ln+1)
+			empty := false
+			switch g.mode {
+			case 0: // every fragment empty
+				empty = true
+			case 1: // empty first, data later
+				empty = k < nf/2
+			case 2: // data first, then empty ones
+				empty = k >= 1
+			case 3: // random
+				empty = r.Bool()
+			case 4: // count changes from fragment to fragment
+				ln = []int{0, 1, 2, 3, 65535, g.ln}[r.Intn(6)]
+				empty = r.Chance(40)
+			case 5: // positions repeated / out of range, IDs and jobs drift
+				pos = []int{0, 0, 1, g.ln, 65535, r.Intn(4)}[r.Intn(6)]
+				empty = r.Chance(30)
+				if r.Chance(25) {
+					n.ID = uint8(0x20 + r.Intn(3))
+				}
+				if r.Chance(25) {
+					n.Job = uint16(2 + r.Intn(3))
+				}
+			}
+			if r.Chance(4) {
+				n.ID = []uint8{c2.VerifC04SvDrop, c2.VerifC04SvRegister}[r.Intn(2)]
+			}
+			if r.Chance(10) {
+				pos = 0
+			}
+			n.Flags = com.FlagFrag
+			if r.Chance(15) {
+				n.Flags |= com.FlagError
+			}
+			n.Flags.SetGroup(g.grp)
+			n.Flags.SetLen(uint16(ln))
+			n.Flags.SetPosition(uint16(pos))
+			if !empty {
+				n.Write(r.Bytes(1 + r.Intn(12)))
+			}
+			total += 46 + n.Size()
+			toks = append(toks, pktTok(n))
+		}
+		add("fragseq "+strings.Join(toks, " "), total, true)
+		c.Count(fmt.Sprintf("fragseq:mode%d", gs[0].mode))
+		c.Eval(true, "fragseq"+strings.Join(toks, " "))
+	})
+	flush()
 	c.Cases("proxy", c.N(150, 2000), func(r *Rng, i int) {
 		var w data.Chunk
 		f := r.Bool()
@@ -833,7 +929,7 @@ func runC04(c *Ctx) {
 
 func c04HasModel(f []string) bool {
 	switch f[0] {
-	case "dec", "sdec", "dns", "bound", "hsw":
+	case "dec", "sdec", "dns", "bound", "hsw", "fragseq":
 		return true
 	}
 	return false
